@@ -31,7 +31,10 @@ CFG = {
         "re-read them after all calls returned: every kept slice equals its copy taken at return time, every inserted value is reported "
         "removed exactly once or still cached - c04_rem_every_linearisation), Stats() readers (1-2 goroutines calling Stats() in a loop while 1-3 "
         "writers Set/SetIfAbsent/SetAndGetRemoved/Delete items that all have one size c: every answer has Size = c*Length <= Capacity, the "
-        "constructor's capacity and a non-decreasing eviction counter - c04_uniform_size), and an out-of-domain stream (negative sizes/capacities -> panic, sizes near 2^63 -> int64 wrap). "
+        "constructor's capacity and a non-decreasing eviction counter - c04_uniform_size), first touches (batches of 1500 trials, each on a "
+        "NEW wide cache of 2..211 shards: 4-12 goroutines behind a spin barrier each issue one Set of its own key - most keys in one shard - "
+        "or one read; every shard can hold what is Set into it; after all returned exactly the Set keys must be present with their values - "
+        "c04_wide_first_touch; the batch is reported as run-length encoded presence masks, all evaluated in Coq), and an out-of-domain stream (negative sizes/capacities -> panic, sizes near 2^63 -> int64 wrap). "
         "Proof is the right level: the claim is equality with an ideal LRU on every history; tests reach a dozen scenarios."
     ),
     "level_note": (
@@ -40,7 +43,7 @@ CFG = {
         "linearisation that Coq re-checks); the lock-discipline lint for the concurrent clause (every exported method of both LRUCache types "
         "is one critical section, so a concurrent execution is one of the histories the theorems quantify over; Init and StatsJSON are not "
         "covered: Init is the constructor's unsynchronised initialiser, StatsJSON is a formatting wrapper around Stats). case_sound is proved "
-        "through the refinement theorems (not by defining accept as matches && holds), except for burst cases (CBurst, CSia, CRem, CStat): a burst has no single model "
+        "through the refinement theorems (not by defining accept as matches && holds), except for burst cases (CBurst, CSia, CRem, CStat, CFirst): a burst has no single model "
         "run to compare with, so there case_accept = case_holds = the monitor; for CSia the monitor is the per-key reading of "
         "c04_sia_every_linearisation (every linearisation is a first-insert-wins map that never replaces a present key); for CRem it is the multiset reading of c04_rem_every_linearisation plus 'a kept list never changes' (the model is "
         "value-semantic; Go slice aliasing is outside the model and is observed directly); for CBurst it is "
@@ -56,7 +59,7 @@ CFG = {
     "rule": (
         "one case = one generated history run on a fresh real cache. Sequential: non-trivial when at least one Get/Peek hit and at least one "
         "eviction occurred; wide: non-trivial when a Set made the number of present keys not grow while keys were present (a shard evicted); "
-        "concurrent: non-trivial when >= 2 goroutines ran and at least one eviction occurred; burst: non-trivial when >= 2 goroutines ran and at least one key is present at quiescence; SetIfAbsent-only burst: non-trivial when >= 2 goroutines ran; concurrent SetAndGetRemoved: non-trivial when >= 2 goroutines ran and something was evicted; Stats readers: non-trivial when more than one distinct answer was kept. distinct = distinct Coq case terms"
+        "concurrent: non-trivial when >= 2 goroutines ran and at least one eviction occurred; burst: non-trivial when >= 2 goroutines ran and at least one key is present at quiescence; SetIfAbsent-only burst: non-trivial when >= 2 goroutines ran; concurrent SetAndGetRemoved: non-trivial when >= 2 goroutines ran and something was evicted; Stats readers: non-trivial when more than one distinct answer was kept; first-touch batch: non-trivial when >= 2 goroutines ran (one case = one batch of trials). distinct = distinct Coq case terms"
     ),
     "trusted": [
         "Go harness c04: adapters over cache.LRUCache / tiny.LRUCache / the four wide constructors, recover wrappers, atomic tick stamping of concurrent calls",
